@@ -121,9 +121,11 @@ Walkable(d) == d \notin {"INIT", "MID"}
 (* ----- the instant of the child's life, from what has been observable so far ----- *)
 Has(q, x) == \E i \in 1..Len(q) : q[i] = x
 HasTerminal(q) == \E i \in 1..Len(q) : Terminal(q[i])
+TermProcessed(s) == \E i \in 1..s.procd : Terminal(s.sent[i])    \* the event loop has processed a terminal status
 Inst(s) ==
   IF s.kind = "ctl"
-    THEN IF HasTerminal(s.sent) THEN "reaped"
+    THEN IF TermProcessed(s) THEN "gone"
+         ELSE IF HasTerminal(s.sent) THEN "reaped"
          ELSE IF s.rel THEN "exiting"
          ELSE IF Has(s.sent, "RUNNING") THEN "running"
          ELSE IF s.rpc = "up" \/ s.lpc \in {"poll", "wait", "send", "done"} THEN "polling"
@@ -168,7 +170,7 @@ DoReq(s, r) ==
          IF s.active
            THEN {[s EXCEPT !.nreq = @ + 1, !.cnt[r] = @ + 1,
                            !.hs = Append(@, [r |-> r, inst |-> q.inst, nth |-> q.nth, pc |-> "body", reached |-> "", err |-> FALSE,
-                                            late |-> HasTerminal(s.sent)])]}
+                                            late |-> HasTerminal(s.sent), gone |-> TermProcessed(s)])]}
            ELSE {[s EXCEPT !.nreq = @ + 1]}
     ELSE {}
 Delivered(s) == s.active
@@ -510,6 +512,11 @@ OneTerminalX == OneTerminal \/ Class("OneTerminal", termBy) \in Known
 KilledNotFailedX == KilledNotFailed \/ Class("KilledNotFailed", killBy) \in Known
 NoSurvivorsX == NoSurvivors \/ Class("NoSurvivors", doneBy) \in Known
 ExecutorSurvivesX == ExecutorSurvives \/ Class("ExecutorSurvives", panBy) \in Known
+
+(* once the event loop has processed a terminal status of the task, the task is no longer addressable: no request
+   reaches the task object any more (performStatusUpdate deletes it from activeTasks, whatever becomes of the UPDATE
+   towards the agent) - this is what keeps a KILL for a dead controllable task away from its nil client *)
+GoneIsGone == \A i \in 1..Len(hs) : ~hs[i].gone
 
 (* a handler goroutine blocked for ever on the one-slot channel (observation, not part of the property) *)
 NoStuckHandler == \A i \in 1..Len(hs) : ~(hs[i].pc = "push" /\ pend # "none" /\ child \in {"waited", "reaped"})
